@@ -32,7 +32,17 @@ func (o *Odd) UnmarshalGQL(v any) error {
 	return nil
 }
 
-func (o Odd) MarshalGQL(w io.Writer) { io.WriteString(w, strconv.Quote(o.V)) }
+// MarshalGQL writes the value when the response is serialised; "boom-out" is
+// user code panicking at that late point (after part of the response was written).
+func (o Odd) MarshalGQL(w io.Writer) {
+	if o.V == "boom-out" {
+		if OddPanicHook != nil {
+			OddPanicHook()
+		}
+		panic("odd marshal panic")
+	}
+	io.WriteString(w, strconv.Quote(o.V))
+}
 
 type Color string
 
